@@ -1,7 +1,7 @@
 """C06 — semaphore: never over-admits, never loses a post (structural part)."""
 from core import strip, is_field, key_mentions, order_ge
 from facts import AnalysisBroken
-from rules import (check_init, nodeset, ev, Unevaluable, forced_edges, atom_from, reach, atomic_ops, ret_const, is_var_load)
+from rules import (writer_kind, check_init, nodeset, ev, Unevaluable, forced_edges, atom_from, reach, atomic_ops, ret_const, is_var_load)
 from props import c01
 from props import deps
 import stale
@@ -200,7 +200,7 @@ def run(ctx):
     bad = None
     for fn in P.unique_functions():
         for s in fn.stores_to(S, "counter"):
-            kind = s.aop if s.kind in ("atomic", "sync") else "assign"
+            kind = writer_kind(s)
             if kind not in allowed.get(fn.name, ()):
                 bad = bad or ("`%s` in %s" % (s.node.text, fn.name), s.node)
     o.check(bad is None, "writers table", "unexpected writer " + (bad[0] if bad else ""), site=bad[1] if bad else None, construct="semaphore counter writer")
